@@ -217,4 +217,62 @@ theorem export_time_and_ends_tls_items (o : Opts) (fk : Option (List Keylog.Key)
     refine ⟨q, hq, (hok.pkts q hq).1, by rw [hqt]; exact hidts.symm, ?_, (e.record, e.fromServer), horig, hdir, by rw [hqt]; exact hid⟩
     rw [← hok.server, hqd]; exact hdir
 
+-- ====================================================================== non-vacuity and the witness for `hkeys`
+namespace Ex
+open TLX.Props.C01Capstone.Ex TLX.Props.C01Pipeline.Ex2 TLX.Props.C01.Ex
+
+/-- the capture of `C01Capstone.Ex.tls12_instance` as items: ten TCP segments of one TLS 1.2 connection (split
+    ClientHello, False Start, a retransmission, a record over two segments, sequence numbers wrapping 2^32) -/
+def capItems : List (Item Keylog.Key) := pktsCap.map .frame
+
+def optsA (a : Bool) : Opts := ⟨[443], false, false, a, true, []⟩
+
+/-- (capture time, payload) of the data segments of each exported conversation -/
+def viewOf (l : List (List Pipeline.OutPkt)) : List (List (Nat × Bytes)) :=
+  l.map fun fs => (dataPkts fs).map fun p => (p.1, p.2.2.2.2.2.2)
+
+-- C08: the capture cut after 7 items exports a prefix of what the whole capture exports (key log from `-s`; the
+-- seventh packet holds only the first 10 bytes of the server's record, which is therefore not yet released)
+example : viewOf (tlsFrames hashes Cipher.Toy.prims infoCap (optsA false) (some kl0) (capItems.take 7))
+    = [[(1004, hi)]] := by decide +kernel
+example : viewOf (tlsFrames hashes Cipher.Toy.prims infoCap (optsA false) (some kl0) capItems)
+    = [[(1004, hi), (1006, k16.take 8), (1008, k16.drop 8)]] := by decide +kernel
+example : dsbOnly (capItems.drop 7) = [] := by decide +kernel
+
+/-- WITNESS for the hypothesis `hkeys` (replayed on the real tool: `harness/export_props_replay.py`): the keys arrive in a
+    Decryption Secrets Block AFTER the packets, no `-s` file, `-a` on. Cut before that block the run has no keys and
+    exports the records verbatim; the whole capture exports the decrypted Finished messages and application data in
+    between — the cut export is NOT a prefix. (Without `-a` the cut run exports nothing, which is a prefix.) -/
+theorem cut_before_late_dsb_not_prefix :
+    let whole := capItems ++ [.dsb kl0]
+    let cut := viewOf (tlsFrames hashes Cipher.Toy.prims infoCap (optsA true) none (whole.take 10))
+    let full := viewOf (tlsFrames hashes Cipher.Toy.prims infoCap (optsA true) none whole)
+    dsbOnly (whole.drop 10) ≠ [] ∧ cut.length = 1 ∧ full.length = 1 ∧
+    ((cut.headD []).isPrefixOf (full.headD [])) = false ∧
+    viewOf (tlsFrames hashes Cipher.Toy.prims infoCap (optsA false) none (whole.take 10)) = [[]] := by
+  decide +kernel
+
+-- C13: the same capture without and with `-a`
+example : viewOf (tlsFrames hashes Cipher.Toy.prims infoCap (optMeta (optsA false) true) (some kl0) capItems)
+    = [[(1000, (rC 0).take 25), (1001, (rC 0).drop 25), (1002, rS 0), (1002, rS 1), (1003, rC 1), (1003, rC 2),
+        (1003, 20 :: 0 :: 0 :: 12 :: k16.take 12), (1003, rC 3), (1004, hi), (1005, rS 2),
+        (1005, 20 :: 0 :: 0 :: 12 :: k16.take 12), (1005, rS 3), (1006, k16.take 8), (1008, k16.drop 8)]] := by
+  decide +kernel
+
+-- C10: with `-m 443:9443` every frame runs between the client's port 5555 and the mapped server port 9443
+example : ((tlsFrames hashes Cipher.Toy.prims infoCap ⟨[443], false, false, false, false, [(443, 9443)]⟩ (some kl0)
+    capItems).flatten.map fun p => (p.src.port, p.dst.port)).eraseDups = [(5555, 9443), (9443, 5555)] := by
+  decide +kernel
+-- … and a flow on other ports is in no conversation
+example : tlsFrames hashes Cipher.Toy.prims infoCap ⟨[8443], false, false, false, true, []⟩ (some kl0) capItems = [] := by
+  decide +kernel
+
+-- C07: the data segments carry the capture times of packets 4, 6 and 8 (`infoCap tag = 1000 + tag`), the ends are
+-- those of the first packet
+example : ((tlsFrames hashes Cipher.Toy.prims infoCap (optsA false) (some kl0) capItems).flatten.map fun p =>
+    (p.srcMac, p.dstMac, p.src.ip, p.dst.ip)).eraseDups
+    = [([1], [2], [10, 0, 0, 1], [10, 0, 0, 2]), ([2], [1], [10, 0, 0, 2], [10, 0, 0, 1])] := by decide +kernel
+
+end Ex
+
 end TLX.Props.ExportProps
